@@ -63,6 +63,7 @@ type vfWorld struct {
 	// behaviour switches
 	mayFail  bool // fetches may fail
 	mayWrong bool // variables may hold a value of the wrong type
+	wrongNil bool // … and that value is nil
 	opsFail  bool // custom operators may fail
 	suffix   string
 
@@ -201,6 +202,9 @@ func (w *vfWorld) load(v *vfVar) {
 	} else {
 		v.val = vfInt64("val." + v.name + w.suffix)
 		v.wrong = true
+	}
+	if w.wrongNil {
+		v.wrong = nil // the wrong-typed value is nil (a variable bound to no value at all)
 	}
 	if w.mayFail {
 		v.fail = vfBool("fail." + v.name + w.suffix)
